@@ -71,7 +71,7 @@ P = {
   "Every requirement of the alphabet matches exactly one published version (selection order is C06's subject). Default JsrUrlProvider only.",
   "DESIGN.md §4 C07", TECH + "; deviation-bounded enumeration of registries x importing programs against reference bookkeeping"),
  "C09": (True,
-  "Every generated package inside the deviation bound (3 declaration slots x ~90 templates x 23 reference forms, nested export-* barrels, 7 helper-module variants, 3 entrypoint sets, registry package or workspace member, one or two build + fast-check steps on one graph) and every package of the fast-check spec corpus goes through the real fast-check transform; each emitted module is re-parsed with scope analysis and checked for dangling references, imports of names the emitted counterpart does not export, unresolvable relative specifiers and source-map well-formedness / identifier fidelity.",
+  "Every generated package inside the deviation bound (3 declaration slots x ~110 templates (the first slot all of them, the later slots ~80) x 23 reference forms, nested export-* barrels, 7 helper-module variants, 3 entrypoint sets, registry package or workspace member, one or two build + fast-check steps on one graph) and every package of the fast-check spec corpus goes through the real fast-check transform; each emitted module is re-parsed with scope analysis and checked for dangling references, imports of names the emitted counterpart does not export, unresolvable relative specifiers and source-map well-formedness / identifier fidelity.",
   "Emitted text is re-parsed with the same swc parser the subject uses (common-mode risk); export / signature / unresolved-identifier extractors and the VLQ source-map decoder are the harness's own. Packages that get diagnostics instead of output are only counted.",
   "DESIGN.md §4 C09-C11", TECH + "; deviation-bounded enumeration of generated packages + full corpus, closure oracle on the re-parsed output"),
  "C10": (True,
